@@ -1,0 +1,51 @@
+//go:build verif
+
+package tiered
+
+import "sync/atomic"
+
+// Scheduling points for the verification harness (build tag verif). All points
+// are at places where the flusher holds no lock, so a worker parked at one of
+// them cannot block client operations.
+
+var verifYieldFn atomic.Value // func(point, key string)
+
+func verifYield(point, key string) {
+	if fn, ok := verifYieldFn.Load().(func(point, key string)); ok && fn != nil {
+		fn(point, key)
+	}
+}
+
+// VerifSetYield installs (or, with nil, removes) the function called at every scheduling point.
+func VerifSetYield(fn func(point, key string)) {
+	if fn == nil {
+		fn = func(string, string) {}
+	}
+	verifYieldFn.Store(fn)
+}
+
+// VerifStopWorkers stops the background flush workers, so that the harness can
+// run flushes itself with VerifFlushNext.
+func (s *Store) VerifStopWorkers() {
+	close(s.impl.flusher.stop)
+}
+
+// VerifFlushNext does what a worker does for one queue entry: it takes the next
+// blob to flush (if any) and flushes it on the calling goroutine. It returns false
+// if nothing was queued.
+func (s *Store) VerifFlushNext() bool {
+	b, ok := s.impl.flusher.nextToFlush()
+	if !ok {
+		return false
+	}
+	s.impl.flusher.flush(b)
+	return true
+}
+
+// VerifQueueLen returns the number of queued flush entries.
+func (s *Store) VerifQueueLen() int {
+	f := s.impl.flusher
+	f.mu.Lock()
+	defer f.mu.Unlock()
+	return len(f.queue)
+}
